@@ -569,20 +569,17 @@ class Data:
         elif var_type == 'int32':
             scale_factor = (ar_max - ar_min) / (2. * 2. ** 31 - 2.)
             add_offset = (ar_max + ar_min) / 2.
-            array -= add_offset
-            array /= scale_factor
+            array = (array - add_offset) / scale_factor
             scaled_array = array.astype("int32")
         elif var_type == 'int16':
             scale_factor = (ar_max - ar_min) / (2. * 2. ** 15 - 2.)
             add_offset = (ar_max + ar_min) / 2.
-            array -= add_offset
-            array /= scale_factor
+            array = (array - add_offset) / scale_factor
             scaled_array = array.astype('int16')
         elif var_type == 'uint8':
             scale_factor = (ar_max - ar_min) / (2. ** 8 - 1.)
             add_offset = ar_min
-            array -= add_offset
-            array /= scale_factor
+            array = (array - add_offset) / scale_factor
             scaled_array = array.astype('uint8')
         else:
             raise ValueError(f"Data type {var_type} not supported.")
